@@ -12,7 +12,10 @@ for d in sorted(glob.glob(os.path.join(V, "seeded", "C*-*"))):
     meta = json.load(open(os.path.join(d, "meta.json")))
     prop = meta["breaks_property"]
     assert subprocess.run(["git", "-C", "/repo", "diff", "--quiet"]).returncode == 0, "/repo dirty"
-    subprocess.run(["git", "-C", "/repo", "apply", os.path.join(d, "patch.diff")], check=True)
+    if subprocess.run(["git", "-C", "/repo", "apply", os.path.join(d, "patch.diff")]).returncode != 0:
+        print(mid, "PATCH DOES NOT APPLY to the current /repo", flush=True)
+        rows.append((mid, prop, -1, 0, "patch does not apply to the current tree"))
+        continue
     try:
         p = subprocess.run([os.path.join(V, "check"), prop, "--tier", "quick"], capture_output=True, text=True, timeout=3000)
     finally:
@@ -33,8 +36,14 @@ for d in sorted(glob.glob(os.path.join(V, "seeded", "C*-*"))):
     json.dump(meta, open(os.path.join(d, "meta.json"), "w"), indent=1)
     rows.append((mid, prop, p.returncode, len(viol), out[-1] if out else ""))
     print(mid, "exit", p.returncode, "violations", len(viol), flush=True)
-if not only:
-    with open(os.path.join(V, "seeded", "RESULTS.md"), "w") as f:
-        f.write("| seeded change | property | quick check exit | VIOLATION lines | summary |\n|---|---|---|---|---|\n")
-        for r in rows:
-            f.write("| %s | %s | %d | %d | %s |\n" % r)
+# the table always reflects every meta.json (a partial run refreshes only its own rows)
+table = []
+for d in sorted(glob.glob(os.path.join(V, "seeded", "C*-*"))):
+    meta = json.load(open(os.path.join(d, "meta.json")))
+    db = meta.get("detected_by") or {}
+    table.append((os.path.basename(d), meta["breaks_property"], db.get("exit_code", "not run"), db.get("violation_lines", 0), db.get("summary", "")))
+with open(os.path.join(V, "seeded", "RESULTS.md"), "w") as f:
+    f.write("| seeded change | property | quick check exit | VIOLATION lines | summary |\n|---|---|---|---|---|\n")
+    for r in table:
+        f.write("| %s | %s | %s | %s | %s |\n" % r)
+print("detected", sum(1 for r in table if r[2] == 1), "of", len(table))
